@@ -423,6 +423,10 @@ func trimOut(s string) string {
 	return s
 }
 
+// noRetryPhase: set by the selftest for its first, restricted pass (a mutant is expected to
+// fail; the full pass that follows when nothing expected failed retries as usual).
+var noRetryPhase bool
+
 // dischargeAll solves all obligations in parallel.
 func dischargeAll(jobs []*obJob, timeoutMs int, workers int, scratch string) {
 	var wg sync.WaitGroup
@@ -498,7 +502,7 @@ func dischargeAll(jobs []*obJob, timeoutMs int, workers int, scratch string) {
 			undecided = append(undecided, j)
 		}
 	}
-	if len(undecided) > 0 && len(undecided) <= 8 {
+	if len(undecided) > 0 && len(undecided) <= 8 && !noRetryPhase {
 		for _, j := range undecided {
 			o := j.o
 			big := min(2*timeoutMs, 40000)
